@@ -39,11 +39,12 @@ def main():
         tier = sys.argv[sys.argv.index("--tier") + 1]
     src = sys.argv[sys.argv.index("--from") + 1] if "--from" in sys.argv else f"/tmp/wt-{pid}"
     patch, demo = os.path.join(src, f"variant{var}.diff"), os.path.join(src, f"demo{var}.py")
-    out_dir = os.path.join(HERE, "seeded", f"{pid}-{var}")
+    label = sys.argv[sys.argv.index("--as") + 1] if "--as" in sys.argv else var
+    out_dir = os.path.join(HERE, "seeded", f"{pid}-{label}")
     if not os.path.exists(patch) and os.path.exists(os.path.join(out_dir, "patch.diff")):
         patch, demo = os.path.join(out_dir, "patch.diff"), os.path.join(out_dir, "demo.py")
     root = tempfile.mkdtemp(prefix="hxv-seed-", dir="/tmp")
-    meta = {"property": pid, "variant": var, "ran": []}
+    meta = {"property": pid, "variant": label, "ran": []}
     env = dict(os.environ, PYTHONDONTWRITEBYTECODE="1")
     try:
         clean, mut = os.path.join(root, "clean"), os.path.join(root, "mut")
